@@ -154,7 +154,62 @@ def compiled_consumer(item, prod):
             bad.append("source-expression-ne-local")
         if c2._Expression not in {e}:
             bad.append("source-expression-not-found-in-set")
+    if bad:
+        compiled_consumer.note = (f"; positional arguments: producer {prod['argnames']}, unpickled here "
+                                  f"{names2}, compiled from source here {namesl}; results on the same "
+                                  f"argument tuples: producer {prod['results']}, unpickled {r2}, local {rl}")
+    else:
+        compiled_consumer.note = ""
     return reply, bad
+
+
+def sharing_producer(item):
+    """one structure built with shared subexpression objects (harness/c17_sharing.py), its
+    persistent key here, and its pickle (pickle's memo keeps the sharing)"""
+    from . import c17_sharing as S
+    sx = loads(item["expr"])
+    o = S.build(sx, item["route"], item["seed"], item.get("extra"))
+    if o is None:
+        return {"na": True}
+    if item["prehash"] and not has_list(o):
+        hash(o)
+    blob = pickle.dumps(o, item["proto"])
+    return {"na": False, "key": digest_hex(o), "tree_key": digest_hex(sx_to_expr(sx)),
+            "blob": base64.b64encode(blob).decode(), "shared": S.n_shared(o),
+            "leak": b"_hash_value" in blob}
+
+
+def sharing_consumer(item, prod):
+    """C17 for one pickle of an object with shared subexpressions, in THIS process: it is equal to
+    the expression built from source here (a tree), has its hash, finds it - and, having the same
+    structure, has the same persistent key, which is also the key the producer computed"""
+    from . import c17_sharing as S
+    if prod.get("na"):
+        return []
+    bad = []
+    sx = loads(item["expr"])
+    local = sx_to_expr(sx)                       # built from source here: no sharing
+    klocal = digest_hex(local)
+    u = pickle.loads(base64.b64decode(prod["blob"]))
+    if prod["leak"]:
+        bad.append("pickle-mentions-_hash_value")
+    if S.structure(u) != item["expr"]:
+        bad.append("fields-differ")
+    if prod["tree_key"] != klocal:
+        bad.append("digest-differs-across-processes")
+    if digest_hex(u) != klocal or prod["key"] != klocal:
+        bad.append("digest-depends-on-object-sharing")
+    again = S.build(sx, item["route"], item["seed"], item.get("extra"))
+    if again is not None and digest_hex(again) != klocal:
+        bad.append("digest-depends-on-object-sharing")
+    if not has_list(local):
+        if not (u == local) or not (local == u):
+            bad.append("unpickled-ne-local")
+        if hash(u) != hash(local):
+            bad.append("hash-differs-from-local")
+        if u not in {local} or {local: "v"}.get(u) != "v":
+            bad.append("not-found-in-set")
+    return bad
 
 
 def process_info():
@@ -178,6 +233,7 @@ def main(argv):
                          "info": info})
         res["histories"] = hist
         res["compiled"] = [compiled_producer(it) for it in job["compiled"]]
+        res["sharing"] = [sharing_producer(it) for it in job.get("sharing", [])]
     else:
         res["per_producer"] = []
         for pf in argv[3:]:
@@ -200,14 +256,24 @@ def main(argv):
                 hist.append({"out": outs, "bad": bad})
             comp = []
             for it, pc in zip(job["compiled"], prod["compiled"]):
+                compiled_consumer.note = ""
                 try:
                     reply, bad = compiled_consumer(it, pc)
                 except RecursionError:
                     raise
                 except Exception as ex:
                     reply, bad = f"(exc {type(ex).__name__})", [f"exception-{type(ex).__name__}"]
-                comp.append({"reply": reply, "bad": bad})
-            res["per_producer"].append({"histories": hist, "compiled": comp})
+                comp.append({"reply": reply, "bad": bad, "note": compiled_consumer.note})
+            shr = []
+            for it, ps in zip(job.get("sharing", []), prod.get("sharing", [])):
+                try:
+                    bad = sharing_consumer(it, ps)
+                except RecursionError:
+                    raise
+                except Exception as ex:
+                    bad = [f"exception-{type(ex).__name__}"]
+                shr.append({"bad": bad})
+            res["per_producer"].append({"histories": hist, "compiled": comp, "sharing": shr})
     with open(outfile, "w") as f:
         json.dump(res, f)
 
